@@ -86,6 +86,8 @@ func CheckSpatialIdsArrayOverlap(spatialIds1 []string, spatialIds2 []string) (bo
 		tr.Append(index1, tree.ZoomSetLevel(zoom1), spatialId1)
 	}
 	// spatialIds2から各要素の取り出し
+	// フォーマット不正な空間IDが重複検出より後に並んでいてもエラーとするため、重複検出後も最後まで走査する
+	overlap := false
 	for indexSpatialId2, spatialId2 := range spatialIds2 {
 		zoom2, f2, x2, y2, err := getSpatialIdAttrs(spatialId2)
 		if err != nil {
@@ -109,14 +111,14 @@ func CheckSpatialIdsArrayOverlap(spatialIds1 []string, spatialIds2 []string) (bo
 			// 比較対象が空の場合、重複は発生しない(空の木への検索は行わない)
 			continue
 		}
-		result := tr.IsOverlap(tree.Indexs{convertedFIndex2, int64(x2), int64(y2)}, tree.ZoomSetLevel(zoom2))
-		if result {
-			// 重複判定時、trueとnilを返却
-			return result, nil
+		if overlap {
+			// 重複は検出済み。残りの空間IDはフォーマットチェックのみ行う
+			continue
 		}
+		overlap = tr.IsOverlap(tree.Indexs{convertedFIndex2, int64(x2), int64(y2)}, tree.ZoomSetLevel(zoom2))
 	}
 
-	return false, nil
+	return overlap, nil
 }
 
 // getSpatialIdAttrs 空間IDフォーマットチェック関数
@@ -246,21 +248,28 @@ func CheckExtendedSpatialIdsOverlap(extendedSpatialId1 string, extendedSpatialId
 //	 		空間IDフォーマット不正：空間IDのフォーマットに違反する値が"重複判定対象空間ID"に入力されていた場合。
 
 func CheckExtendedSpatialIdsArrayOverlap(extendedSpatialIds1 []string, extendedSpatialIds2 []string) (bool, error) {
-	// spatialIds1から各要素の取り出し
+	// フォーマット不正な拡張空間IDを見逃さないよう、重複検出後も全ての組み合わせを検査する
+	overlap := false
 	for _, extendedSpatialId1 := range extendedSpatialIds1 {
-		// spatialIds2から各要素の取り出し
 		for _, extendedSpatialId2 := range extendedSpatialIds2 {
-			// 取り出した要素の比較
 			result, err := CheckExtendedSpatialIdsOverlap(extendedSpatialId1, extendedSpatialId2)
 			if err != nil {
-				// エラー発生時、falseとerrorを返却
 				return false, err
 			}
 			if result {
-				// 重複判定時、trueとnilを返却
-				return result, nil
+				overlap = true
 			}
 		}
 	}
-	return false, nil
+	// 片方が空の場合は組み合わせが存在しないため、もう片方の拡張空間IDのフォーマットを個別に検査する
+	if len(extendedSpatialIds1) == 0 || len(extendedSpatialIds2) == 0 {
+		for _, extendedSpatialIds := range [][]string{extendedSpatialIds1, extendedSpatialIds2} {
+			for _, extendedSpatialId := range extendedSpatialIds {
+				if _, err := CheckExtendedSpatialIdsOverlap(extendedSpatialId, extendedSpatialId); err != nil {
+					return false, err
+				}
+			}
+		}
+	}
+	return overlap, nil
 }
